@@ -29,6 +29,8 @@ pub struct Exec {
     pub stats: Stats,
     /// oracle failures: (property, ops line number, description, tag)
     pub oracle_failures: Vec<(String, usize, String, String)>,
+    /// for failures found inside a sweep: the ops that replay the failing case on their own (by index into `oracle_failures`)
+    pub failure_replays: std::collections::BTreeMap<usize, Vec<String>>,
     pub line_no: usize,
     pub l1: Option<crate::exec_l1::L1State>,
 }
@@ -118,6 +120,7 @@ impl Exec {
         Exec {
             stats: Stats::default(),
             oracle_failures: vec![],
+            failure_replays: Default::default(),
             line_no: 0,
             l1: None,
         }
@@ -131,6 +134,11 @@ impl Exec {
     pub fn fail_tag(&mut self, prop: &str, tag: &str, what: String) {
         self.oracle_failures
             .push((prop.to_string(), self.line_no, what, tag.to_string()));
+    }
+
+    pub fn fail_tag_replay(&mut self, prop: &str, tag: &str, what: String, replay: Vec<String>) {
+        self.failure_replays.insert(self.oracle_failures.len(), replay);
+        self.fail_tag(prop, tag, what);
     }
 
     /// Runs one op; `None` = not an op this executor knows (`bad-op`).
